@@ -613,6 +613,8 @@ fn run_ops(
 pr_mod!(m_u8, u8, yes, [1, 2, 3, 5, 7, 8]);
 pr_mod!(m_u16, u16, yes, [1, 2, 8, 12, 15, 16]);
 pr_mod!(m_u32, u32, no, [1, 2, 12, 24, 31, 32]);
+// Probability as wide as usize: PRECISION == 64 exercises the `wrapping_pow2::<usize>` corner
+pr_mod!(m_u64, u64, no, [1, 2, 32, 63, 64]);
 
 pub fn run(r: &mut Reader, out: &mut Vec<Int>) {
     let pb = r.next();
@@ -628,6 +630,7 @@ pub fn run(r: &mut Reader, out: &mut Vec<Int>) {
         8 => m_u8::dispatch(&c, out),
         16 => m_u16::dispatch(&c, out),
         32 => m_u32::dispatch(&c, out),
+        64 => m_u64::dispatch(&c, out),
         _ => panic!("harness: models instance PB={} not in menu", pb),
     }
 }
